@@ -22,7 +22,11 @@ import (
 	sretypestr "verif/harness/shapes/retypestr"
 	stagadded "verif/harness/shapes/tagadded"
 	stagchanged "verif/harness/shapes/tagchanged"
+	staglower "verif/harness/shapes/taglower"
 	stagremoved "verif/harness/shapes/tagremoved"
+	stagupper "verif/harness/shapes/tagupper"
+	stwonest "verif/harness/shapes/twonest"
+	stwoval "verif/harness/shapes/twoval"
 	svalnest "verif/harness/shapes/valnest"
 )
 
@@ -50,6 +54,10 @@ var shapeVariants = []*shapeV{
 	{Name: "tagadded", New: stagadded.New, Zero: stagadded.Zero, ProbeA: stagadded.ProbeA},
 	{Name: "tagremoved", New: stagremoved.New, Zero: stagremoved.Zero, ProbeA: stagremoved.ProbeA},
 	{Name: "tagchanged", New: stagchanged.New, Zero: stagchanged.Zero, ProbeA: stagchanged.ProbeA},
+	{Name: "twonest", New: stwonest.New, Zero: stwonest.Zero, ProbeA: stwonest.ProbeA},
+	{Name: "twoval", New: stwoval.New, Zero: stwoval.Zero, ProbeA: stwoval.ProbeA},
+	{Name: "taglower", New: staglower.New, Zero: staglower.Zero, ProbeA: staglower.ProbeA},
+	{Name: "tagupper", New: stagupper.New, Zero: stagupper.Zero, ProbeA: stagupper.ProbeA},
 }
 
 // describe walks the struct independently of sod: path -> type, path -> constraints.
@@ -501,7 +509,7 @@ func runC17(c *Ctx) {
 		}
 	}
 	c.Meta(map[string]interface{}{
-		"rule":   "(1) all ordered pairs (stored shape, current shape) over 12 struct variants that share package and type name (field added / removed / retyped / renamed / reordered, pointer vs value nesting, nested field retyped, tag added / removed / changed) x {0, 2} stored objects x 21 operations naming the collection, as first and as later operation on the handle; pair class computed by an independent reflection walk: structure different => ErrStructureChanged and byte-identical files (also after Control and Close); same structure but different constraints => Create refused with ErrFieldDescModif; other extension => ErrExtensionMismatch; compatible => operations succeed, data preserved, Control quiet. (2) Create with each of {cache on/off} x {async off, (2, 2 steps), (100, 2 steps)} as alphabet letters in BFS histories with pending writes (refinement continues, deleted objects never on disk, nothing lost at Close, second handle agrees) and as calls of a client against the running background writer over all schedules within 2 deviations (no panic, no blocking, nothing lost). Non-trivial = pairs of different shapes; histories with a settings change on non-empty collections.",
+		"rule":   "(1) all ordered pairs (stored shape, current shape) over 16 struct variants that share package and type name (field added / removed / retyped / renamed / reordered, pointer vs value nesting, nested field retyped, a second and third field of an already used struct type, tag added / removed / changed, lower / upper added) x {0, 2} stored objects x 21 operations naming the collection, as first and as later operation on the handle; pair class computed by an independent reflection walk: structure different => ErrStructureChanged and byte-identical files (also after Control and Close); same structure but different constraints => Create refused with ErrFieldDescModif; other extension => ErrExtensionMismatch; compatible => operations succeed, data preserved, Control quiet. (2) Create with each of {cache on/off} x {async off, (2, 2 steps), (100, 2 steps)} as alphabet letters in BFS histories with pending writes (refinement continues, deleted objects never on disk, nothing lost at Close, second handle agrees) and as calls of a client against the running background writer over all schedules within 2 deviations (no panic, no blocking, nothing lost). Non-trivial = pairs of different shapes; histories with a settings change on non-empty collections.",
 		"shapes": len(shapeVariants), "operations": len(ops), "settings_depth": depth,
 	})
 }
